@@ -245,8 +245,21 @@ fn check(case: &Case, ev: &mut CaseEv) -> CheckResult {
             ev.nontrivial = values.len() >= 2;
             ev.set_sig(&("shuffle", seed, values.len()));
             let mut v = values.clone();
+            // one shuffle in five is the second call on its generator object: a longer vector was shuffled first
+            // (nothing of an earlier call may be left in the generator besides its state)
+            let prior: Option<usize> = if values.len() < 2000 && seed % 5 == 0 { Some(values.len() + 1 + (seed % 37) as usize) } else { None };
+            if prior.is_some() {
+                ev.class("shuffle after a longer shuffle on the same generator");
+            }
             let r = catch(|| {
                 let mut g = Generator::create(*seed);
+                if let Some(pl) = prior {
+                    let mut pv: Vec<usize> = (0..pl).collect();
+                    g.shuffle(&mut pv);
+                    let mut sorted = pv.clone();
+                    sorted.sort();
+                    assert!(sorted.iter().enumerate().all(|(i, x)| i == *x), "shuffle of 0..{} is not a permutation: {:?}", pl, pv);
+                }
                 g.shuffle(&mut v);
                 v
             });
@@ -409,7 +422,7 @@ impl Prop for C18 {
         t.pick(400_000, 10_000_000)
     }
     fn rule(&self) -> String {
-        "tape-decoded cases of six kinds (one generator object serving two intervals in a row with the second draw at a chosen state - half of them pairs with decimal end points and equal single-precision width; generate at a chosen generator state x interval class; purity of the sequence; shuffle with seeds of all magnitudes and lengths 0..1500 with duplicates (one in 4000: a length just above 2^24); Tensor::random shapes of rank 1-4 (a zero-sized inner dimension in 1/8; in 1/10 after a refused request for an unsupported shape); seeds up to u64::MAX) plus enumeration of generator states (quick: 2^16 lowest + 2^16 highest + a seed-offset progression; thorough: all 2^31-2 states). Non-trivial: state within 2^16 of either end of the state space, or seed >= 2^32, or shuffle length >= 2, or tensor with >= 2 entries. Distinct = (kind, state/seed, interval bits / length / shape).".into()
+        "tape-decoded cases of six kinds (one generator object serving two intervals in a row with the second draw at a chosen state - half of them pairs with decimal end points and equal single-precision width; generate at a chosen generator state x interval class; purity of the sequence; shuffle with seeds of all magnitudes and lengths 0..1500 with duplicates (one in five as the second, shorter shuffle on its generator object) (one in 4000: a length just above 2^24); Tensor::random shapes of rank 1-4 (a zero-sized inner dimension in 1/8; in 1/10 after a refused request for an unsupported shape); seeds up to u64::MAX) plus enumeration of generator states (quick: 2^16 lowest + 2^16 highest + a seed-offset progression; thorough: all 2^31-2 states). Non-trivial: state within 2^16 of either end of the state space, or seed >= 2^32, or shuffle length >= 2, or tensor with >= 2 entries. Distinct = (kind, state/seed, interval bits / length / shape).".into()
     }
     fn assumptions(&self) -> Vec<String> {
         vec!["Tensor::random seeds itself from the wall clock: its inputs are not reproducible, the assertion (shape, interval) is seed-independent".into()]
